@@ -1579,6 +1579,8 @@ def _c20_pty_cases(chk, out, n):
         if not r["prompt_seen"]:
             # no prompt at all: retry once before believing it (a loaded machine)
             r = ptydrive.editor_session(vlib.LACE_BIN, asm, os.path.join(d, "cache%d" % i), hist, keys, mode)
+        if not r["prompt_seen"] and not r["panicked"]:
+            raise vlib.ToolError("the debugger's prompt never appeared on the pseudo terminal (twice): %r" % r["transcript"][-200:])
         evs = [{"ev": "init", "hist": [chars(h) for h in hist], "mode": mode}]
         for k in keys:
             evs.append({"ev": "bkey", "key": k})
